@@ -210,9 +210,12 @@ def random_kyg(rng, comma, newcols):
                 cols += [fmtnum(g, comma, rng), fmtnum(-1.0, comma, rng), fmtnum(1.0, comma, rng), fmtnum(inf, comma, rng), cons]
             lines.append(";".join(cols))
             az, htot = float(rng.choice([0, 90, 180, 270])), float(rng.choice([64000, 80000, 100000, 128000]))
-            h3 = htot * rng.choice([1.0, 0.75, 0.5])
+            # radiation after remote obstacles, after facade obstacles, after louvres: three different figures
+            h1 = htot * rng.choice([1.0, 0.9, 0.8])
+            h2 = h1 * rng.choice([1.0, 0.75, 0.5])
+            h3 = h2 * rng.choice([1.0, 0.6, 0.4])
             exp_v[vn] = [vn, va, vu, o.replace("O", "W"), ff / 100.0, g, inf, cons, az, h3 / htot]
-            wins.append((vn, az, va, htot, h3))
+            wins.append((vn, az, va, htot, h1, h2, h3))
     for i in range(rng.randint(0, 4)):
         n = rng.choice(["FRENTE_FORJADO", "PILAR", "HUECO", "ESQUINA%d" % i])
         l, psi = round(rng.uniform(0, 200), 2), round(rng.uniform(0.01, 1.2), 2)
@@ -225,10 +228,10 @@ def random_kyg(rng, comma, newcols):
     hf = [round(rng.uniform(20, 200), 2) for _ in range(9)]
     for i, h in enumerate(hf):
         lines.append("%d;%s" % (i, fmtnum(h, comma, rng)))
-    for vn, az, va, htot, h3 in wins:
+    for vn, az, va, htot, h1, h2, h3 in wins:
         # these lines are written by HULC with decimal point and six decimals
         f = lambda x: "%.6f" % x
-        lines.append('"%s"; %s; %s; %s; %s; %s; %s; %s' % (vn, f(az), f(va), f(htot), f(h3), f(h3), f(h3), f(h3 * 0.9)))
+        lines.append('"%s"; %s; %s; %s; %s; %s; %s; %s' % (vn, f(az), f(va), f(htot), f(h1), f(h2), f(h3), f(h3 * 0.9)))
     r4 = lambda x: int(round(x * 1e4))
     exp = {"k": r4(k),
            "walls": [[w[0], r4(w[1]), r4(w[2]), r4(w[3]), w[4], w[5], w[6]] for _, w in sorted(exp_w.items())],
@@ -246,15 +249,16 @@ def random_tbl(rng):
     lines = ["Nombre", " A U p f fv angNorte tilt tipo codigo0 codigo1", "%d %d" % (n, m)]
     for i in range(n):
         name = "P01_E%02d_ME%03d" % (rng.randint(1, 3), i)
-        vals = [round(rng.uniform(1, 90), 3), round(rng.uniform(0.1, 4), 3), round(rng.uniform(0, 300), 3), 0.0, 0.0, float(rng.choice([0, 90, 180, 270])),
-                float(rng.choice([0, 90, 180]))]
-        typ, c0, c1 = rng.choice([0, 1, 2, -2, -3, -4, -5]), rng.randint(-5, 5), rng.randint(-5, 5)
+        # every column a different figure, so that two columns read in each other's place show
+        vals = [round(rng.uniform(1, 90), 3), round(rng.uniform(0.1, 4), 3), round(rng.uniform(0, 300), 3), round(rng.uniform(0.05, 0.45), 3), round(rng.uniform(0.5, 0.95), 3),
+                round(rng.uniform(181, 359), 2), round(rng.uniform(0.5, 179), 2)]
+        typ, c0, c1 = rng.choice([0, 1, 2, -2, -3, -4, -5]), rng.randint(1, 20), rng.randint(21, 40)
         lines.append('"%s"' % name)
         lines.append(" " + " ".join("%.6f" % v for v in vals) + " %d %d %d" % (typ, c0, c1))
         els[name] = [name] + [int(round(v * 1e4)) for v in vals] + [c0, c1]
     for j in range(m):
         name = "P01_E%02d" % (j + 1)
-        mult, area, qint = rng.randint(1, 3), round(rng.uniform(5, 100), 3), round(rng.uniform(0, 10), 3)
+        mult, area, qint = rng.randint(2, 4), round(rng.uniform(11, 100), 3), round(rng.uniform(0.1, 10), 3)
         lines.append('"%s"' % name)
         lines.append(" %d %d %.6f %.6f" % (j, mult, area, qint))
         sps[name] = [name, j, mult, int(round(area * 1e4)), int(round(qint * 1e4))]
